@@ -5515,9 +5515,9 @@ class SkipTo(ParseElementEnhance):
         tmploc = loc
         while tmploc <= instrlen:
             if self_failOn_canParseNext is not None:
-                # break if failOn expression matches
+                # the SkipTo is not a match if the failOn expression matches first
                 if self_failOn_canParseNext(instring, tmploc):
-                    break
+                    raise ParseException(instring, loc, self.errmsg, self)
 
             if ignorer_try_parse is not None:
                 # advance past ignore expressions
